@@ -36,7 +36,19 @@ def body_spans(text, meta):
             continue
         if fn["body"] is None:
             continue
-        out.append((fid, seg_a, toks, fn["body"], fn["end"]))
+        # the woven text may carry `match x { .. }` at depth 0 in an ensures clause: the body is the LAST
+        # top-level brace group (the one closed by the fn's final `}`), not the first `{`
+        body = fn["body"]
+        k = body
+        while k < fn["end"]:
+            if toks[k].kind == PUNCT and toks[k].text in ("{", "(", "["):
+                c = match_close(toks, k)
+                if toks[k].text == "{":
+                    body = k
+                k = c + 1
+            else:
+                k += 1
+        out.append((fid, seg_a, toks, body, fn["end"]))
     return out
 
 
